@@ -42,6 +42,12 @@ class Built:
         self.decl = None
 
 
+class NodeFun:
+    """Picklable node function for FunctionGrid (a lambda could not be saved with ocp.save)."""
+    def __init__(self, nodes): self.nodes = list(nodes)
+    def __call__(self, N): return list(self.nodes)
+
+
 def mk_grid(g):
     kw = {}
     if g['lt0']: kw['localize_t0'] = True
@@ -55,7 +61,7 @@ def mk_grid(g):
         return GeometricGrid(fl(g['growth']), local=bool(g['local']), **kw)
     if k == 'function':
         nodes = [fl(v) for v in g['nodes']]
-        return FunctionGrid(lambda N: list(nodes), **kw)
+        return FunctionGrid(NodeFun(nodes), **kw)
     if k == 'free':
         return FreeGrid(**kw)
     raise ValueError(k)
@@ -163,7 +169,7 @@ def horizon(h):
     return None  # parameter: set later
 
 
-def fill(b, st, decl, with_method=True, after_init=False):
+def fill(b, st, decl, with_method=True, after_init=False, method_obj=None):
     """Declare the content of one stage (symbols, dynamics, constraints, objective, values, guesses, method) on st."""
     ocp = st
     b.stage = st; b.decl = decl
@@ -228,7 +234,7 @@ def fill(b, st, decl, with_method=True, after_init=False):
             ocp.set_value(b.p[i], pval(p, decl['method']['N']))
     if not after_init:
         apply_guesses(b, decl)
-    if with_method: ocp.method(mk_method(decl['method']))
+    if with_method: ocp.method(method_obj if method_obj is not None else mk_method(decl['method']))
 
 
 def build(decl, solver='ipopt', with_method=True, after_init=False):
@@ -276,12 +282,19 @@ def build_multi(md, solver='ipopt'):
                 st = ocp.stage(tmpl, t0=horizon(d['t0']), T=horizon(d['T']))
                 p = Built(); p.ocp = ocp; p.stage = st; p.decl = d
                 p.x, p.u, p.z, p.p, p.v = tb.x, tb.u, tb.z, tb.p, tb.v
+                # every clone gets its own parameter values
+                for i_, pr_ in enumerate(d['params']):
+                    if pr_['val']: st.set_value(tb.p[i_], pval(pr_, d['method']['N']))
                 B.parts.append(p)
         else:
+            import json as _json
+            shared = {}      # users commonly hand the same method instance to several stages
             for d in md['stages']:
                 st = ocp.stage(t0=horizon(d['t0']), T=horizon(d['T']))
                 p = Built(); p.ocp = ocp
-                fill(p, st, d)
+                key = _json.dumps(d['method'], sort_keys=True)
+                if key not in shared: shared[key] = mk_method(d['method'])
+                fill(p, st, d, method_obj=shared[key])
                 B.parts.append(p)
         for c in md['pcons']:
             l, r = mx_parent(B.parts, c['lhs']), mx_parent(B.parts, c['rhs'])
@@ -291,3 +304,28 @@ def build_multi(md, solver='ipopt'):
             ocp.add_objective(mx_parent(B.parts, e))
         ocp.solver(solver, {"print_time": False, "ipopt": {"print_level": 0}})
     return B
+
+
+def through_save_load(b):
+    """C18: save the built OCP, load it, and return a Built on the *loaded* object whose symbols are found through the
+    public accessors (same order as declared).  The original stays usable."""
+    import tempfile
+    decl = b.decl
+    fd, fn = tempfile.mkstemp(suffix='.rockit'); os.close(fd)
+    buf = io.StringIO()
+    try:
+        with contextlib.redirect_stdout(buf):
+            b.ocp.save(fn)
+            ocp2 = Ocp.load(fn)
+    finally:
+        os.unlink(fn)
+    b2 = Built(); b2.ocp = ocp2; b2.stage = ocp2; b2.decl = decl
+    b2.T_free = b.T_free; b2.t0_free = b.t0_free
+    b2.x = list(ocp2.states); b2.u = list(ocp2.controls); b2.z = list(ocp2.algebraics)
+    kindkey = {'g': '', 'c': 'control', 'cp': 'control+'}
+    it = {k: iter(list(ocp2.parameters[k])) for k in ('', 'control', 'control+')}
+    b2.p = [next(it[kindkey[p['kind']]]) for p in decl['params']]
+    it = {k: iter(list(ocp2.variables[k])) for k in ('', 'control', 'control+')}
+    b2.v = [next(it[kindkey[v['kind']]]) for v in decl['vars']]
+    b2.quad_exprs = []
+    return b2
